@@ -179,15 +179,6 @@ Contract(
     trusted=True,
     note="interface contract MCS: DERIVED for the only implementation, OptimizerRC2.minimal_correction_subsets (contracts/c_mcs.py: proved structural contract + lemmas MCS.bridge, MCS.bridge2), relative to the assumed RC2 / GVC / BLOCK contracts one level further down; also compared with brute force by modules pure / c15",
 )
-Contract(
-    "inference.system_w:any_subset_of_all",
-    params={"A": SSK, "B": SSK},
-    returns=TBool,
-    ensures=lambda c, r: [r.t == ASAK(c._st.env["A"].t, c._st.env["B"].t)],
-    trusted=True,
-    note="ASSUMED (all/any over generators): every member of B has a subset in A; exhaustive on small universes in module `pure`",
-)
-
 # --- WRECK: System W recursion at key level --------------------------------------------------
 WRECK = z3.Function("WRECK", LLInt.sort, CMapS, L.WSet, L.WSet, L.WSet, L.Int, L.Bool)
 AtLevelWK = z3.Function("AtLevelWK", L.WSet, L.Bool)
